@@ -117,6 +117,20 @@ func c36Eq(a, b []byte) bool {
 	return true
 }
 
+// c36Closed drains c without blocking and reports whether it is closed.
+func c36Closed[T any](c chan T) bool {
+	for {
+		select {
+		case _, ok := <-c:
+			if !ok {
+				return true
+			}
+		default:
+			return false
+		}
+	}
+}
+
 // c36Run delivers p and runs onePacket; reports (err, panicked).
 func c36Run(m *mux, conn *c36Conn, p []byte) (err error, panicked bool) {
 	conn.in = [][]byte{p}
@@ -424,9 +438,7 @@ func c36ChannelMsgs(maxLen int) {
 	case msgChannelClose:
 		verifrt.Reach("close")
 		verifrt.Assert(err == nil && !a.listed && a.closedWin && a.sentC && ch.pending.closed && ch.extPending.closed, "close unregisters and closes the channel")
-		_, okMsg := <-ch.msg
-		_, okReq := <-ch.incomingRequests
-		verifrt.Assert(!okMsg && !okReq, "close closes the channel's message and request streams")
+		verifrt.Assert(c36Closed(ch.msg) && c36Closed(ch.incomingRequests), "close closes the channel's message and request streams")
 		if b.sentC {
 			verifrt.Assert(len(conn.pkts) == 0, "close is not sent twice")
 		} else {
@@ -536,23 +548,13 @@ func Verif_C36_LoopExit() {
 	panicked := verifrt.Panics(func() { m.loop() })
 	verifrt.Assert(!panicked, "mux.loop does not panic")
 	for _, ch := range chs {
-		_, okMsg := <-ch.msg
-		for okMsg {
-			_, okMsg = <-ch.msg
-		}
-		_, okReq := <-ch.incomingRequests
-		for okReq {
-			_, okReq = <-ch.incomingRequests
-		}
+		verifrt.Assert(c36Closed(ch.msg) && c36Closed(ch.incomingRequests), "every channel's message and request streams are closed when the connection ends")
 		verifrt.Assert(ch.pending.closed && ch.extPending.closed && ch.remoteWin.closed && ch.sentClose, "every channel is closed when the connection ends")
 		_, werr := ch.remoteWin.reserve(1)
 		verifrt.Assert(werr == io.EOF, "writers fail with io.EOF after the connection ended")
 	}
 	verifrt.Assert(len(m.chanList.chans) == 0, "channel list is emptied")
-	_, ok1 := <-m.incomingChannels
-	_, ok2 := <-m.incomingRequests
-	_, ok3 := <-m.globalResponses
-	verifrt.Assert(!ok1 && !ok2 && !ok3, "channel-open, request and global reply streams are closed")
+	verifrt.Assert(c36Closed(m.incomingChannels) && c36Closed(m.incomingRequests) && c36Closed(m.globalResponses), "channel-open, request and global reply streams are closed")
 	verifrt.Assert(conn.nclosed == 1, "transport is closed")
 	werr := m.Wait()
 	verifrt.Assert(werr != nil, "Wait reports why the loop ended")
